@@ -543,7 +543,7 @@ inner_gf27500_sbb(unsigned char cc, uint64_t a, uint64_t b, uint64_t *d)
         quo = hi >> 4;
         rem = h - (27 * quo);
 
-        cc = inner_gf27500_adc(cc, d0, quo, &d0);
+        cc = inner_gf27500_adc(0, d0, quo, &d0);
         cc = inner_gf27500_adc(cc, d1, 0, &d1);
         cc = inner_gf27500_adc(cc, d2, 0, &d2);
         cc = inner_gf27500_adc(cc, d3, 0, &d3);
